@@ -205,6 +205,49 @@ SPECS["C16"] = dict(
     ],
 )
 
+SPECS["C17"] = dict(
+    title="timed scheduler: every task runs exactly once, never early",
+    level="exploration",
+    technique="generated concurrent submission programs against the real scheduler in real time under both timer-channel semantics; per-task run counter and timestamps as oracle",
+    level_text="TODO",
+    level_note="TODO",
+    design_ref="5/C17",
+    rule="TODO",
+    width={Q: 2, T: 4},
+    jobs=[
+        plain("TestC17Sched", sq=1, st=2, label="sched-asynctimerchan0", godebug="asynctimerchan=0", env={"C17_SECONDS": {Q: 12, T: 240}}, timeout={Q: 300, T: 1200}),
+        plain("TestC17Sched", sq=1, st=2, label="sched-asynctimerchan1", godebug="asynctimerchan=1", env={"C17_SECONDS": {Q: 12, T: 240}}, timeout={Q: 300, T: 1200}),
+    ],
+)
+
+SPECS["C05"] = dict(
+    title="no datagram can crash or bloat the process",
+    level="exploration",
+    technique="rapid structure-aware mutation of genuine and forged datagrams fed to the raw core, the FEC decoder, dialled sessions and listeners (before and after the integrity gate) amid valid traffic; oracle: no panic + occupancy limits",
+    level_text="TODO",
+    level_note="TODO",
+    design_ref="5/C05",
+    rule="TODO",
+    jobs=[
+        rapid("TestC05Core", 4000, 150000, sq=2, st=16),
+        rapid("TestC05FECDecoder", 2000, 60000, sq=1, st=8),
+        rapid("TestC05Session", 350, 10000, sq=4, st=16),
+    ],
+)
+
+SPECS["C06"] = dict(
+    title="packets failing the integrity check have no effect at all",
+    level="exploration",
+    technique="rapid-generated guaranteed-detectable corruptions (AEAD any change; CRC bursts <=32 bits; stored-CRC changes; verified ciphertext corruption; short/random datagrams) of captured genuine datagrams injected synchronously at quiescent points of generated histories; full-state digest, counter, emission and wake-up oracles",
+    level_text="TODO",
+    level_note="TODO",
+    design_ref="5/C06",
+    rule="TODO",
+    jobs=[
+        rapid("TestC06Session", 350, 10000, sq=4, st=16),
+    ],
+)
+
 NOTES = ("Every check is `./check <id> quick|thorough`; it rebuilds the harness against /repo's working tree with -tags verif, "
          "runs rapid / enumeration jobs in parallel shards seeded from VERIF_SEED, writes evidence/<id>.json, prints "
          "KNOWN-FINDING lines for entries of known_findings.jsonl that still reproduce, and exits 1 with a VIOLATION line otherwise. "
